@@ -183,6 +183,19 @@ def evaluate(res, pid, config, cpu, cfgline, bs, cases, reals, models, crashed, 
         ro = reals[k]
         if ro is None or len(ro) < len(c.ops):
             detail = (crashed[0][2][-600:] if crashed else "")
+            unsupported = [cr[2] for cr in crashed if "unsupported operation" in cr[2] and "does not indicate a bug in the program" in cr[2]]
+            if unsupported:
+                # the interpreter (Miri) lacks an operation the code under test uses (e.g. a SIMD intrinsic it does not
+                # emulate): this says nothing about the implementation, but the tie for this configuration cannot be run, so
+                # the theorems are not shown to speak about this code - reported as a broken correspondence, without input
+                if not any(d.get("stream", "").startswith("tie not executable") and d.get("config") == config for d in res.corr_pending):
+                    import re as _re
+                    m = _re.search(r"unsupported operation: ([^\n]{0,200})", unsupported[0])
+                    res.corr_pending.append(dict(kind="correspondence-broken", stream=f"tie not executable: {pid}/{config}", config=config, cpu=cpu, cfg=cfgline,
+                                                 detail="the interpreter does not support an operation used by the code under test: " + (m.group(1) if m else "")
+                                                        + " - not a failure of the implementation; the model/code correspondence for this configuration could not be run",
+                                                 first_unexecuted_case=c.ops[:6]))
+                continue
             oracle_fails.append((k, f"runner crashed/aborted inside this case (outputs: {0 if ro is None else len(ro)} of {len(c.ops)}) {detail}"))
             continue
         if c.oracle:
